@@ -3,7 +3,7 @@ from ..common import Check
 from .. import gficheck, gfirecord
 
 QUICK = ["f2", "fn3", "fs", "fvf", "fc"]
-THOROUGH = QUICK + ["fv", "fr", "fa", "fd", "fsc", "fvs"]
+THOROUGH = QUICK + ["fv", "fr", "fa", "fd", "fsc"]
 INV = ["Coherent", "RegenerateOK"]
 
 
@@ -11,7 +11,7 @@ def run(tier, argv):
     chk = Check("C04", tier)
     plans = [("a", ["f2", "fs", "fd"], "all", "all"), ("b", ["fn3", "fvf", "fc", "fa", "fb", "fs2", "fsk"], "few", "all")]
     if tier != "quick":
-        plans = [("a", ["f2", "fs", "fd", "fc", "fa"], "all", "all"), ("b", ["fn3", "fvf", "fv", "fr", "fsc", "fvs", "fs2", "fcg", "fch", "fe", "fve"], "few", "all"), ("c", ["sc", "sc2", "cTF"], "few", "all")]
+        plans = [("a", ["f2", "fs", "fd", "fc", "fa"], "all", "all"), ("b", ["fn3", "fvf", "fv", "fr", "fsc", "fs2", "fcg", "fch", "fe", "fve"], "few", "all"), ("c", ["sc", "sc2", "cTF"], "few", "all")]
     for tag, progs, sims, ua in plans:
         cfg = gficheck.write_cfg(f"C04_{tier}_{tag}.cfg", progs, 2, ["simulate", "regenerate"], 0, ua, INV, sim_scripts=sims)
         info = gficheck.run_config(chk, cfg, {"regenerate"}, variant="eager", min_depth=2,
